@@ -32,10 +32,14 @@ def replay_known(ctx, binp):
 
 
 def restart_corr(ctx, binp, corr_broken, seed, n, steps, maxfile):
-    rc, out = ctx.run_cmd([binp, "-test.run", "^TestVerifE5RestartCorr$", "-test.count=1", "-test.timeout", "500s"],
-                          timeout=560, env={"VERIF_SEED": seed, "VERIF_N": n, "VERIF_STEPS": steps,
+    rc, out = ctx.run_cmd([binp, "-test.run", "^TestVerifE5RestartCorr$", "-test.count=1", "-test.timeout",
+                           "%ds" % base.deadline(ctx)],
+                          timeout=base.deadline(ctx) + 30, env={"VERIF_SEED": seed, "VERIF_N": n, "VERIF_STEPS": steps,
                                             "VERIF_OUT": ctx.work, "VERIF_MAXFILE": maxfile})
     rp = {"kind": "seed", "test": "TestVerifE5RestartCorr", "seed": seed, "n": n, "steps": steps, "maxfile": maxfile}
+    if rc != 0 and base.hung(ctx, rc, out, "TestVerifE5RestartCorr", seed, n, steps):
+        corr_broken.append("restart harness hit its deadline")
+        return
     if rc != 0:
         ctx.log("restart harness failed:\n" + out[-2500:])
         corr_broken.append("restart harness exit %s: %s" % (rc, out[-300:].replace("\n", " | ")))
